@@ -690,6 +690,26 @@ RULE = (
     "of the tolerance (corrected variants near a zero denominator).")
 
 
+def emit_failures(rep, failures):
+    """Report.failures is capped; emit round-robin over the check names so that every distinct
+    check gets a stored witness before any check gets its second one."""
+    by = {}
+    for f in failures:
+        by.setdefault(f[0], []).append(f)
+    depth = 0
+    while True:
+        row = [by[k][depth] for k in sorted(by) if len(by[k]) > depth]
+        if not row:
+            break
+        for check, w_, detail in row:
+            if depth < 3:
+                rep.fail(check, w_, detail)
+            else:                       # only counted
+                rep.nfail += 1
+                rep.by_check[check] = rep.by_check.get(check, 0) + 1
+        depth += 1
+
+
 def main():
     args = parse_args()
     rep = Report(PROP, args, SCOPE, RULE)
@@ -728,6 +748,7 @@ def main():
     illcond = {}
     names = set()
     herr = []
+    allfail = []
     for chunk, outs in zip(chunks, results):
         for group, (evals, failures, ill, nm, cases, err) in zip(chunk, outs):
             if err:
@@ -745,15 +766,18 @@ def main():
             for k, v in ill.items():
                 illcond[k] = illcond.get(k, 0) + v
             names.update(nm)
-            for check, w_, detail in failures:
-                rep.fail(check, w_, detail)
+            allfail.extend(failures)
+    emit_failures(rep, allfail)
     if illcond:
         rep.skip("comparisons discarded as ill-conditioned (see rule): %s" % json.dumps(illcond, sort_keys=True))
     missing = sorted({m.name for m in measures} - names)
     if missing:
         rep.fail("coverage/never-evaluated", {"measures": missing}, "registered but never evaluated")
     if herr:
-        rep.fail("harness/error", {"n": len(herr)}, herr[0])
+        sys.stderr.write(herr[0] + "\n")
+        rep.failures.insert(0, {"check": "harness/error", "witness": {"n": len(herr)}, "detail": herr[0][-600:]})
+        rep.nfail += 1
+        rep.by_check["harness/error"] = len(herr)
     rep.finish()
     if herr and len(herr) == len(groups):
         sys.exit(3)
